@@ -128,3 +128,13 @@ Theorem C18_E2E_call_on_string :
   forall (uni : Lexer.uclass) (eng : engines) (fuel : nat) (inv me : bool) (a : str) (q : bool) (u1 u2 u3 : str) (finv : bool) (name : string) (ps : list Ast.param) (rs : list rparam) (cur doc : gv) (s : str), obj_row a doc (VStr false s) -> dec_of_string s = None -> Forall2 (param_denotes doc) ps rs -> plain_function name = true -> Eval.eval uni eng (S (S (S (S (S fuel))))) (Eval.NPath (call_path inv me a q u1 finv name ps u2 u3)) cur doc = run_func eng name rs (VStr false s).
 Proof. exact Mpath.Proofs.E2E.E2E_call_on_string. Qed.
 Print Assumptions C18_E2E_call_on_string.
+
+(** the slicers end to end (Proofs/E2E3.v): the count a literal (`2`, `2.0`, `20e-1`) or a path to any
+    numeric carrier whose value is the natural number n *)
+From Mpath.Proofs Require E2E3.
+Import Mpath.Proofs.E2E3.
+
+Theorem C18_E2E3_string_slicers :
+  forall (uni : Lexer.uclass) (eng : engines) (fuel : nat) (cur : gv) (cinv cme cq : bool) (cu1 cu2 cu3 : str) (cfinv : bool) (a : str) (p : Ast.param) (doc : gv) (s : str) (pd : dec) (n : nat), obj_row a doc (VStr false s) -> dec_of_string s = None -> (Z.of_nat (Datatypes.length s) < 2 ^ 63)%Z -> param_denotes doc p (RNum pd) -> DecQ.dval pd == inject_Z (Z.of_nat n) -> Eval.eval uni eng (S (S (S (S (S (S (S fuel))))))) (Eval.NPath (call_path cinv cme a cq cu1 cfinv "Left" [p] cu2 cu3)) cur doc = Ok (VStr false (part SLeft (Nat.min n (Datatypes.length s)) s)) /\ Eval.eval uni eng (S (S (S (S (S (S (S fuel))))))) (Eval.NPath (call_path cinv cme a cq cu1 cfinv "Right" [p] cu2 cu3)) cur doc = Ok (VStr false (part SRight (Nat.min n (Datatypes.length s)) s)) /\ Eval.eval uni eng (S (S (S (S (S (S (S fuel))))))) (Eval.NPath (call_path cinv cme a cq cu1 cfinv "TrimLeft" [p] cu2 cu3)) cur doc = Ok (VStr false (part STrimLeft (Nat.min n (Datatypes.length s)) s)) /\ Eval.eval uni eng (S (S (S (S (S (S (S fuel))))))) (Eval.NPath (call_path cinv cme a cq cu1 cfinv "TrimRight" [p] cu2 cu3)) cur doc = Ok (VStr false (part STrimRight (Nat.min n (Datatypes.length s)) s)).
+Proof. exact Mpath.Proofs.E2E3.E2E3_string_slicers. Qed.
+Print Assumptions C18_E2E3_string_slicers.
